@@ -64,6 +64,12 @@ type Bus struct {
 	WHash uint64
 
 	OnAccess func(b *Bus, a Acc)
+
+	// Gen is the generation of the device views handed to the CPU. A view of an
+	// older generation is one the host has replaced (Machine.SwapDevices); traffic
+	// arriving through it is counted in StaleAcc.
+	Gen      int
+	StaleAcc int
 }
 
 // NewBus returns an empty bus.
@@ -90,28 +96,43 @@ func InByte(seed, n uint64, port uint8) uint8 {
 }
 
 // Memory returns the z80.Memory view.
-func (b *Bus) Memory() z80.Memory { return busMem{b} }
+func (b *Bus) Memory() z80.Memory { return busMem{b, b.Gen} }
 
 // IO returns the z80.IO view.
-func (b *Bus) IO() z80.IO { return busIO{b} }
+func (b *Bus) IO() z80.IO { return busIO{b, b.Gen} }
 
-type busMem struct{ b *Bus }
+type busMem struct {
+	b   *Bus
+	gen int
+}
 
 func (m busMem) Get(addr uint16) uint8 {
+	if m.gen != m.b.Gen {
+		m.b.StaleAcc++
+	}
 	v := m.b.Mem[addr]
 	m.b.rec(Acc{MR, addr, v})
 	return v
 }
 
 func (m busMem) Set(addr uint16, v uint8) {
+	if m.gen != m.b.Gen {
+		m.b.StaleAcc++
+	}
 	m.b.Mem[addr] = v
 	m.b.WHash = Mix64(m.b.WHash, uint64(addr)<<8|uint64(v))
 	m.b.rec(Acc{MW, addr, v})
 }
 
-type busIO struct{ b *Bus }
+type busIO struct {
+	b   *Bus
+	gen int
+}
 
 func (i busIO) In(port uint8) uint8 {
+	if i.gen != i.b.Gen {
+		i.b.StaleAcc++
+	}
 	v := InByte(i.b.IOSeed, i.b.PortReads, port)
 	i.b.PortReads++
 	i.b.rec(Acc{PI, uint16(port), v})
@@ -119,6 +140,9 @@ func (i busIO) In(port uint8) uint8 {
 }
 
 func (i busIO) Out(port uint8, v uint8) {
+	if i.gen != i.b.Gen {
+		i.b.StaleAcc++
+	}
 	i.b.rec(Acc{PO, uint16(port), v})
 }
 
